@@ -81,6 +81,13 @@ func (s *SweepingProvider) worker()
   modifies *
   ensures [exit-only-on-close-signal] tagged("recv:s.closed")
   ensures [exit-is-announced] tagged("closed:s.done")
+  # the worker goes to sleep (waits for a wake-up without polling) only after a
+  # dequeue that returned FEWER than a full batch, i.e. when the queue is drained:
+  # after a full batch more operations may be pending and nobody will signal them
+  ghostvar $short bool = false
+  loop 0 invariant [sleeps-only-when-drained] imp(emptyQueue, $short)
+  ghost at before call(GetN): assert($arg0 == s.batchSize)
+  ghost at call(GetN): $short = ($ret1 == nil && len($ret0) < s.batchSize)
   ghost at before call(executeOperation)#0: assert($arg1 == ops[forceStartProvidingOp])
   ghost at before call(executeOperation)#1: assert($arg1 == ops[startProvidingOp])
   ghost at before call(executeOperation)#2: assert($arg1 == ops[provideOnceOp])
